@@ -5,10 +5,14 @@ import (
 	"encoding/hex"
 	"errors"
 	"fmt"
+	"io"
+	"io/ioutil"
 	"os"
 	"os/exec"
 	"path/filepath"
 	"strings"
+	"sync"
+	"syscall"
 	"time"
 )
 
@@ -258,6 +262,9 @@ func (t *Task) Execute() {
 	}
 
 	if t.anyOutputsExist() {
+		// The producers of streaming (FIFO) inputs are never skipped, so they
+		// must not be left blocking on a pipe that this skipped task never opens
+		t.drainStreamingInputs()
 		t.Done <- 1
 		return
 	}
@@ -299,6 +306,35 @@ func (t *Task) Execute() {
 // ------------------------------------------------------------------------
 // Helper methods for the Execute method
 // ------------------------------------------------------------------------
+
+// drainStreamingInputs reads and discards what is written to the FIFOs of all
+// streaming in-IPs. It returns when the FIFOs have been removed, which the
+// producing process does when the producing task is done. The FIFOs are opened
+// without blocking, since a producer that is itself skipped never writes
+func (t *Task) drainStreamingInputs() {
+	wg := sync.WaitGroup{}
+	for _, iip := range t.InIPs {
+		if !iip.doStream {
+			continue
+		}
+		wg.Add(1)
+		go func(iip *FileIP) {
+			defer wg.Done()
+			fifo, err := os.OpenFile(iip.FifoPath(), os.O_RDONLY|syscall.O_NONBLOCK, 0)
+			if os.IsNotExist(err) {
+				return // Already removed, so the producer is done
+			} else if err != nil {
+				t.Failf("Could not open FIFO file for draining: %s: %v", iip.FifoPath(), err)
+			}
+			defer fifo.Close()
+			for iip.FifoFileExists() {
+				io.Copy(ioutil.Discard, fifo) // Returns when there is no (more) writer
+				time.Sleep(10 * time.Millisecond)
+			}
+		}(iip)
+	}
+	wg.Wait()
+}
 
 // anyTempFileExists checks if any temporary workflow files exist and if so, returns true
 func (t *Task) tempDirsExist() bool {
